@@ -7,6 +7,7 @@ import (
 	"sort"
 
 	"github.com/tellor-io/layer/x/oracle/types"
+	regtypes "github.com/tellor-io/layer/x/registry/types"
 
 	cosmomath "cosmossdk.io/math"
 )
@@ -16,7 +17,9 @@ func (k Keeper) WeightedMedian(ctx context.Context, reports []types.MicroReport,
 	values := make(map[string]cosmomath.LegacyDec)
 
 	for _, r := range reports {
-		val, ok := new(big.Int).SetString(r.Value, 16)
+		// values are validated at submission with an optional 0x prefix stripped (DataSpec.ValidateValue) and
+		// stored as submitted
+		val, ok := new(big.Int).SetString(regtypes.Remove0xPrefix(r.Value), 16)
 		if !ok {
 			k.Logger(ctx).Error("WeightedMedian", "error", "failed to parse value")
 			return nil, errors.New("failed to parse value")
